@@ -6,6 +6,7 @@ Every universe is a partition of its whole frame by construction (regions
 R1..Rk, cell i = Ri minus the earlier ones, last cell = the rest), so the
 MCNP model is well defined.
 """
+import copy
 import math
 
 import numpy as np
@@ -714,6 +715,27 @@ def hier_case(draw, tier='quick', opts=None):
         depth = min(depth, opts['max_depth'])
     b.world(depth)
     deck = b.deck
+    if opts.get('lattice') and draw(st.integers(0, 3)) == 0:
+        # "#n" with n a lattice cell, used on a card of another universe: the
+        # complement of the expression on card n (the [0,0,0] element), like
+        # for any other cell.  A level-0 cell R is split into R #n and
+        # R (expression of n)
+        lat = [c for c in deck['cells'] if c.get('lat') and not c.get('trcl')
+               and c.get('like') is None and c.get('u')]
+        lvl0 = [c for c in deck['cells'] if not c.get('u')
+                and not c.get('fill') and not c.get('trcl')
+                and c.get('like') is None and c.get('mat')
+                and not md.is_zero_importance(c.get('imp') or {'n': 1})]
+        if lat and lvl0:
+            n_ = draw(st.sampled_from(lat))
+            r_ = draw(st.sampled_from(lvl0))
+            mat, rho = b.material()
+            inside = md.cell(b.new_cid(), mat, rho,
+                             md.AND(r_['expr'], copy.deepcopy(n_['expr'])),
+                             imp=dict(r_['imp']))
+            r_['expr'] = md.AND(r_['expr'], md.CELLC(n_['id']))
+            deck['cells'].append(inside)
+            b.labels.add('complement-of-lattice-cell-from-level-0')
     # order of the cell cards is irrelevant to MCNP: shuffle sometimes
     if draw(st.integers(0, 3)) == 0:
         order = draw(st.permutations(list(range(len(deck['cells'])))))
